@@ -30,14 +30,16 @@ PID = 'C17'
 MODES = ['interp', 'largest', 'largest+smallest', 'all']
 RULE = ('cases = (cube package with 1 or 3-5 apertures, 4-12 wavelengths in either stored order, 2-6 models; '
         '3-5 monochromatic filters at tabulated wavelengths with angular apertures (repeated values allowed); '
-        'distance range with theta*d inside or above the aperture table; 1-2 sources; k = 1..5 selected fits; '
+        'model names stored in the cube in arbitrary (shuffled, un-padded numbered) order; extinction law tabulated in '
+        'micron, nm, Angstrom or cm; distance range with theta*d inside or above the aperture table; 1-2 sources; k = 1..5 selected fits; '
         'results passed as object or as file); every case is plotted in all four display modes; a case is '
         'non-trivial when at least one pass-through point (fit x filter x mode) is checked; distinct = '
         'distinct canonical hash of the generated inputs')
 REQUIRED_BRANCHES = ['mode_interp', 'mode_largest', 'mode_largest+smallest', 'mode_all',
                      'single_aperture', 'multi_aperture', 'form_object', 'form_file',
                      'k1', 'k_gt1', 'k_exceeds_models', 'inside_table', 'above_table',
-                     'repeated_filter_aperture', 'distinct_filter_apertures', 'two_sources', 'stored_increasing_wav', 'stored_decreasing_wav']
+                     'repeated_filter_aperture', 'distinct_filter_apertures', 'two_sources', 'ext_unit_micron', 'ext_unit_other',
+                     'ext_unit_other_file_av_nonzero', 'cube_names_unsorted', 'stored_increasing_wav', 'stored_decreasing_wav']
 ASSUMPTIONS = ['IEEE rounding is not modelled: model-vs-implementation tolerance 1e-9 relative on curve values',
                'pass-through against the stored predicted flux is checked to 2e-3 relative (the plot uses KPC = 3.086e21 cm, '
                'the package distance is astropy\'s kpc = 3.0857e21 cm: ratio^2 = 1 - 2.1e-4)',
@@ -146,8 +148,15 @@ def gen_case(rng, directed=None):
         sources.append(dict(name='src%d' % si, flags=flags, flux=flux, err=err))
     k = directed.get('k', rng.randint(1, 5))
     forms = directed.get('forms', [rng.choice(['object', 'file'])])
+    # model names in the cube: arbitrary order, un-padded numbers (m_8, m_9, m_10 sort differently as strings)
+    start = rng.choice([1, 7, 8, 97, 98])
+    names = ['m_%d' % (start + i) for i in range(nm)]
+    if directed.get('names', rng.choice(['shuffled', 'shuffled', 'numeric'])) == 'shuffled':
+        rng.shuffle(names)
+    # unit in which the extinction law's wavelength column is tabulated
+    ext_unit = directed.get('ext_unit', rng.choice(['micron', 'micron', 'nm', 'Angstrom', 'cm']))
     return dict(wav=wav, aps=aps, val=val, fidx=fidx, theta=theta, tab_w=tw, tab_chi=chi, av=av_range,
-                drange=[dmin, dmax], step=step, sources=sources, k=k, forms=forms)
+                drange=[dmin, dmax], step=step, sources=sources, k=k, forms=forms, names=names, ext_unit=ext_unit)
 
 
 DIRECTED = [
@@ -159,7 +168,13 @@ DIRECTED = [
     dict(multi=True, k=2, forms=['file'], nsrc=2, where='inside', repeat=True),
     dict(multi=True, k=7, forms=['object'], nsrc=1, where='mixed'),
     dict(multi=False, k=7, forms=['file'], nsrc=1),
+    dict(multi=True, k=3, forms=['object', 'file'], nsrc=1, where='inside', ext_unit='nm', names='shuffled'),
+    dict(multi=False, k=2, forms=['file'], nsrc=2, ext_unit='Angstrom', names='shuffled'),
+    dict(multi=True, k=4, forms=['file'], nsrc=1, where='mixed', ext_unit='cm', names='numeric'),
+    dict(multi=False, k=3, forms=['object'], nsrc=1, ext_unit='nm', names='shuffled'),
 ]
+for _d in DIRECTED[:8]:
+    _d.setdefault('ext_unit', 'micron')
 
 
 def gen_cases(seed, tier):
@@ -171,7 +186,15 @@ def gen_cases(seed, tier):
 # ----------------------------------------------------------------------------- real side
 
 def names_of(case):
-    return ['mod%02d' % i for i in range(len(case['val']))]
+    return list(case.get('names') or ['mod%02d' % i for i in range(len(case['val']))])
+
+
+def make_ext(case):
+    """the extinction law, its wavelength column given in the case's unit (the model side works in micron)"""
+    from astropy import units as u
+    unit = u.Unit(case.get('ext_unit', 'micron'))
+    w = (np.array(case['tab_w'], dtype=float) * u.micron).to(unit).value
+    return pk.make_extinction(w, case['tab_chi'], wav_unit=unit)
 
 
 def run_impl(case, d):
@@ -182,7 +205,7 @@ def run_impl(case, d):
     names = names_of(case)
     val = np.array(case['val'], dtype=float)
     pk.write_cube_package(d, names, case['wav'], val, val * 0.1, apertures_au=case['aps'])
-    ext = pk.make_extinction(case['tab_w'], case['tab_chi'])
+    ext = make_ext(case)
     fnames = [case['wav'][i] * u.micron for i in case['fidx']]
     fitter = pk.make_fitter(d, fnames, case['theta'], ext, case['av'], distance_range_kpc=case['drange'])
     infos = []
@@ -349,7 +372,12 @@ def run_case(case):
         branches.add('k1' if case['k'] == 1 else 'k_gt1')
         if case['k'] > nm:
             branches.add('k_exceeds_models')
-        ext = pk.make_extinction(case['tab_w'], case['tab_chi'])
+        other_unit = case.get('ext_unit', 'micron') != 'micron'
+        branches.add('ext_unit_other' if other_unit else 'ext_unit_micron')
+        if other_unit and 'file' in case['forms'] and any(float(x) != 0. for info in infos for x in np.asarray(info.av, dtype=float)[:case['k']]):
+            branches.add('ext_unit_other_file_av_nonzero')
+        nn = names_of(case)
+        branches.add('cube_names_sorted' if nn == sorted(nn) else 'cube_names_unsorted')
         from astropy import units as u
         for info in infos:
             a = pk.fit_arrays(info)
